@@ -136,7 +136,7 @@ def run_one(module, cfg, workers, heap, timeout, cache):
         res["error"] = "TLC did not finish (timeout %ds?)\n" % timeout + out[-1500:]
     # -coverage 1: actions that were never taken make the run vacuous for them
     for am in re.finditer(r"<(\w+) line \d+, col \d+ to line \d+, col \d+ of module (\w+)>: (\d+):(\d+)", out):
-        if am.group(3) == "0" and am.group(4) == "0":
+        if am.group(3) == "0" and am.group(4) == "0" and am.group(1) not in res["actions_never_taken"]:
             res["actions_never_taken"].append(am.group(1))
     shutil.rmtree(work, ignore_errors=True)
     if res["complete"] or res["violated"]:
@@ -158,6 +158,7 @@ def run_for(prop, tier, cache, mach_h, jobs=12):
         out["states"] += res["distinct"]
         out["transitions"] += res["generated"]
         out["detail"][res["cfg"]] = {k: res[k] for k in ("generated", "distinct", "depth", "complete", "violated", "actions_never_taken")}
+        out["detail"][res["cfg"]]["actions_never_taken"] = list(dict.fromkeys(res["actions_never_taken"]))
         complete = complete and res["complete"]
         if res["error"]:
             out["tool_error"] = "%s: %s" % (res["cfg"], res["error"])
